@@ -46,7 +46,7 @@ Proof.
       * inversion H; subst. destruct Hy as [<-|Hy]; [apply supp_self; assumption|apply Hc; assumption].
     + destruct (add_advc rest a) as [r'|] eqn:R; [|discriminate]. inversion H; subst.
       destruct Hy as [<-|Hy]; [apply Hc; left; reflexivity|].
-      eapply IH; eauto. intros x Hx; apply Hc; right; assumption.
+      eapply IH; [intros x Hx; apply Hc; right; assumption|exact Ha|reflexivity|exact Hy].
 Qed.
 
 Lemma add_all_supp L l : forall cur r,
@@ -76,7 +76,7 @@ Proof.
         -- right. exists y; split; [right; assumption|reflexivity].
       * inversion H; subst. destruct Hy as [<-|Hy]; [left; reflexivity|right; exists y; auto].
     + destruct (add_advc rest a) as [r'|] eqn:R; [|discriminate]. inversion H; subst.
-      destruct Hy as [<-|Hy]; [right; exists y; split; [left; reflexivity|reflexivity]|].
+      destruct Hy as [<-|Hy]; [right; exists c; split; [left; reflexivity|reflexivity]|].
       destruct (IH _ eq_refl Hy) as [E|(x & Hx & E)]; [left; assumption|right; exists x; split; [right; assumption|assumption]].
 Qed.
 
